@@ -285,6 +285,11 @@ def all_jobs():
     J.append(dict(id='ctx_pool_keep', src='blocc/builtin/builtin_abs.cpp', contract='ctx_pool.c', enforce=mg, roots=[mg], replace=[], cut=['_ZN4bloc5Value4swapEOS0_', V_MOVE_CTOR],
                   props=['C01', 'C05', 'C17'], pretty='bloc::Context::Pool::keep (Context::allocate)', canaries=['normal'], bounded_inputs=True, unwind=2, defines=['ENFORCING_VALUE_CORE'],
                   unwind_why='no loop; the pool is modelled by an array of at most 3 slots', structs=DEFAULT_STRUCTS + ['bloc::Context::Pool']))
+    mg = '_ZN4bloc7Context13storeVariableEjONS_5ValueE'
+    J.append(dict(id='ctx_storeVariable', src='blocc/context.cpp', contract='ctx_store.c', enforce=mg, roots=[mg], replace=['_ZN4bloc5Value4swapEOS0_', V_CLEAR],
+                  cut=['_ZN4bloc5Value4swapEOS0_', V_CLONE, V_CLEAR, RTE_CTOR, RTE_CTOR_S, '_ZNK4bloc5Value8typeNameB5cxx11Ev'], defines=['ENFORCING_VALUE_CLONE'],
+                  props=['C01', 'C05', 'C08'], pretty='bloc::Context::storeVariable', canaries=['normal', 'exceptional'],
+                  structs=DEFAULT_STRUCTS + [STD_STRING, 'bloc::Context', 'bloc::Symbol', 'bloc::Context::MemorySlot', 'bloc::Collection', 'bloc::Tuple']))
     # ---- generic builtin contracts (C01, C05): one job per builtin listed here ----
     for ent in BUILTINS_GENERIC:
         name, cls, nargs = ent[0], ent[1], ent[2]
